@@ -119,7 +119,7 @@ pub fn gen_san_position(cur: &mut Cursor) -> (RefPos, &'static str) {
 
 fn gen_san_pos_case(cur: &mut Cursor) -> Value {
     let (p, src) = gen_san_position(cur);
-    json!({"fen": p.fen(), "src": src})
+    crate::common::with_twin(cur, json!({"fen": p.fen(), "src": src}))
 }
 
 pub fn utf8_render(p: &RefPos, m: &RefMove, san: &str) -> String {
@@ -480,7 +480,7 @@ fn gen_text_case(cur: &mut Cursor) -> Value {
         };
         texts.push(t);
     }
-    json!({"fen": p.fen(), "src": src, "texts": texts})
+    crate::common::with_twin(cur, json!({"fen": p.fen(), "src": src, "texts": texts}))
 }
 
 fn text_case(case: &Value, stats: &mut Stats) -> CheckResult {
@@ -521,7 +521,7 @@ fn text_case(case: &Value, stats: &mut Stats) -> CheckResult {
 fn gen_short_case(cur: &mut Cursor) -> Value {
     let which = cur.pick(&[3usize, 11, 12, 5, 3, 11]);
     let (p, src) = gen_position_from(cur, which);
-    json!({"fen": p.fen(), "src": src})
+    crate::common::with_twin(cur, json!({"fen": p.fen(), "src": src}))
 }
 
 fn short_case(case: &Value, stats: &mut Stats) -> CheckResult {
